@@ -354,7 +354,7 @@ theorem plain_enc (p : Nat) (i : Insn)
 
 theorem plain_unw {p k : Nat} {i : Insn} {a : Bool} {b : Nat → Option Nat} {r : Bytes × List Unwritten}
     (hnl : plainInsn i = true) (h : encInsn a b p k i = .ok r) : r.2 = [] := by
-  cases i <;> first | (simp only [encInsn] at h; cases h; rfl) | simp [plainInsn] at hnl
+  cases i <;> first | (simp only [encInsn] at h; cases h; rfl) | (simp only [encInsn] at h; split at h <;> cases h; rfl) | simp [plainInsn] at hnl
 
 /-- **one instruction**: whatever form the writer chose for instruction `i`, its final bytes decode to `i` -/
 theorem encInsn_decoded {lp lbl : Nat → Option Nat} {p k : Nat} {i : Insn} {isWide : Bool}
